@@ -650,9 +650,9 @@ def body_dynamic(ctx):
 
 
 def run(ctx):
-    hyp_run(ctx, 'c11.static', STATIC_CASE, body_static(ctx), ctx.pick(6, 150))
-    hyp_run(ctx, 'c11.bigreorg', BIGREORG_CASE, body_bigreorg(ctx), ctx.pick(4, 100))
-    hyp_run(ctx, 'c11.dynamic', case_strategy(True), body_dynamic(ctx), ctx.pick(120, 2500))
+    hyp_run(ctx, 'c11.static', STATIC_CASE, body_static(ctx), ctx.pick(6, 400), frac=0.15)
+    hyp_run(ctx, 'c11.bigreorg', BIGREORG_CASE, body_bigreorg(ctx), ctx.pick(4, 300), frac=0.15)
+    hyp_run(ctx, 'c11.dynamic', case_strategy(True), body_dynamic(ctx), ctx.pick(120, 12000))
 
 
 def replay(ctx, check, case):
